@@ -317,8 +317,12 @@ fn eviction_conformance(rep: &Report) -> Value {
         let p = sc.path().join(format!("d{}/test_e.py", i));
         // virtual files (not on disk): analysis only needs the text
         db.analyze_file(p.clone(), text);
-        let _ = db.get_available_fixtures(&p);
-        let _ = db.is_fixture_imported_in_file("ev", &p);
+        if i + 1 < n {
+            // warm the per-path caches; nothing is queried after the analysis that crosses the
+            // limit, so that evicted entries cannot be refilled before they are inspected
+            let _ = db.get_available_fixtures(&p);
+            let _ = db.is_fixture_imported_in_file("ev", &p);
+        }
     }
     // the 2001st analysis crossed the limit: eviction has run inside analyze_file
     let remaining = db.file_cache.len();
